@@ -96,6 +96,23 @@ class Sym(object):
         self.al = norm.aliases(func.node)
         self.minq = set(minq_names)
 
+    def _extra(self, a):
+        """text of a non-score argument of a monotone helper; a local that only counts the
+        iterations of a loop over matching_terms(...) is named by what it counts."""
+        if isinstance(a, ast.Name):
+            fn = self.func.node
+            binds = [st for st in ast.walk(fn) if (isinstance(st, ast.Assign) and any(isinstance(t, ast.Name) and t.id == a.id for t in st.targets))
+                     or (isinstance(st, ast.AugAssign) and isinstance(st.target, ast.Name) and st.target.id == a.id)]
+            inits = [st for st in binds if isinstance(st, ast.Assign)]
+            incs = [st for st in binds if isinstance(st, ast.AugAssign)]
+            loops = [lp for lp in ast.walk(fn) if isinstance(lp, ast.For) and any(x is i for i in incs for x in lp.body)
+                     and any(norm.call_name(c) == "matching_terms" for c in norm.calls_in(lp.iter))]
+            if len(inits) == 1 and isinstance(inits[0].value, ast.Constant) and inits[0].value.value == 0 and len(incs) == 1 \
+                    and isinstance(incs[0].op, ast.Add) and isinstance(incs[0].value, ast.Constant) and incs[0].value.value == 1 \
+                    and len(loops) == 1 and a.id not in self.func.params:
+                return "<count of matching_terms>"
+        return norm.canon(a, self.al)
+
     def child_of(self, expr, env):
         e = expr
         if isinstance(e, ast.Name) and e.id in env and env[e.id][0] == "childref":
@@ -144,7 +161,7 @@ class Sym(object):
                     # the replacement stands for the same child (same remaining entries)
                     return ("childref", ch)
                 if norm.canon(e.func.value) == "self" and nm in MONOTONE_HELPERS and e.args:
-                    return ("apply", nm, self.ev(e.args[0], env), ", ".join(norm.canon(a, self.al) for a in e.args[1:]))
+                    return ("apply", nm, self.ev(e.args[0], env), ", ".join(self._extra(a) for a in e.args[1:]))
                 if norm.canon(e.func.value) == "self" and nm in KIND_OF_CALL and not e.args:
                     return T_atom(KIND_OF_CALL[nm], "self")
             if isinstance(e.func, ast.Name) and nm in ("max", "sum") and e.args:
@@ -305,7 +322,7 @@ def geq(a, b, depth=0):
     if ka == "apply" and kb == "apply":
         # CoordMatcher._sqr(score, matching) is non-decreasing in both arguments and
         # matching <= self._termcount (the number of term matchers in the tree)
-        extra_ok = a[3] == b[3] or (a[3] == "self._termcount" and b[3] == "matching")
+        extra_ok = a[3] == b[3] or (a[3] == "self._termcount" and b[3] == "<count of matching_terms>")
         return a[1] == b[1] and extra_ok and geq(a[2], b[2], depth + 1)
     if ka == "all" and kb == "all":
         # sum over all >= max over all; same op: kinds must bound
